@@ -457,6 +457,6 @@ func genCase(t *rapid.T) Case {
 	return c
 }
 
-var propCSRF = vk.Register(&vk.Prop[Case]{Property: property, Name: "history", Gen: genCase, Check: check, Quick: 10000, Thorough: 60000})
+var propCSRF = vk.Register(&vk.Prop[Case]{Property: property, Name: "history", Gen: genCase, Check: check, Quick: 25000, Thorough: 80000})
 
 func TestHistory(t *testing.T) { propCSRF.Run(t) }
